@@ -55,6 +55,9 @@ type Op struct {
 	S   int64  `json:"s,omitempty"`
 	H   int    `json:"h,omitempty"`
 	Srv []Rep  `json:"srv,omitempty"`
+	// Local, if set, puts the local list file into a state before the
+	// operation: K write (content C, variant Alt) | missing | dir.
+	Local *Rep `json:"local,omitempty"`
 }
 
 // InitList is a list present in the configuration at first start (no file yet).
@@ -78,7 +81,17 @@ var urls = []string{
 	"https://lists.test/l1.txt",
 	"http://other.test/l2.txt",
 	"http://lists.test/dir/l3.txt?x=1",
+	localURL, // a local file under a safe pattern; replaced by its path at run time
 }
+
+const (
+	localURL = "$LOCAL/list.txt"
+	localIdx = 4
+)
+
+// runURLs is urls with the local entry resolved for the running case (one
+// case runs at a time in a process).
+var runURLs = urls
 
 var (
 	okKinds    = []string{ls.KindOK, ls.KindOK, ls.KindOKChunked, ls.KindOKClose}
@@ -251,6 +264,14 @@ func Gen(t *rapid.T, tier string) any {
 			op = Op{K: "config", H: rapid.SampledFrom([]int{1, 0, 12, 1, 24, 72}).Draw(t, "new_interval")}
 			plan = false
 		}
+		if _, ok := side[localIdx]; ok && op.K != "restart" && op.K != "config" && rapid.IntRange(0, 2).Draw(t, "touch_local") == 0 || (op.K == "add" || op.K == "seturl") && (op.U == localIdx || op.U2 == localIdx) && rapid.IntRange(0, 3).Draw(t, "prepare_local") != 0 {
+			lp := Rep{K: rapid.SampledFrom([]string{"write", "write", "missing", "write", "dir", "write"}).Draw(t, "local_state")}
+			if lp.K == "write" {
+				lp.C = rapid.IntRange(0, nc-1).Draw(t, "local_content")
+				lp.Alt = rapid.SampledFrom([]int{0, 0, 1, -1, 2, 0}).Draw(t, "local_alt")
+			}
+			op.Local = &lp
+		}
 		if plan {
 			for j, m := 0, rapid.IntRange(0, 4).Draw(t, "n_plan"); j < m; j++ {
 				op.Srv = append(op.Srv, genRep(t, nc, sc.TimeoutS))
@@ -300,6 +321,11 @@ type run struct {
 	lists    []*mlist
 	verdicts map[string]string
 	opIdx    int
+	// the local list file: its path and what it holds now
+	localPath  string
+	localState string // write | missing | dir
+	localBody  []byte
+	localTag   string
 	// bookkeeping for the message of list-id-reused
 	startAt, prevStartAt time.Time
 }
@@ -428,7 +454,7 @@ func (r *run) planFn(url string) ls.Reply {
 }
 
 func urlIdx(u string) int {
-	for i, x := range urls {
+	for i, x := range runURLs {
 		if x == u {
 			return i
 		}
@@ -453,8 +479,11 @@ const (
 )
 
 func (r *run) classify(rec *ls.Record) int {
-	if rec.Refused || rec.TimedOut {
+	if rec.Refused || rec.TimedOut || rec.Unreadable {
 		return expOld
+	}
+	if rec.Uncertain {
+		return expEither
 	}
 	switch rec.Reply.Kind {
 	case ls.KindOK, ls.KindOKChunked, ls.KindOKClose, ls.KindSlowHdr, ls.KindSlowBody:
@@ -474,6 +503,18 @@ func (r *run) countFaults(recs []*ls.Record) {
 	c := r.c
 	for _, rec := range recs {
 		k := rec.Reply.Kind
+		if rec.Local {
+			switch {
+			case rec.Uncertain:
+			case rec.Unreadable && r.localState == "missing":
+				c.Fault("local_file_missing")
+			case rec.Unreadable:
+				c.Fault("local_file_is_directory")
+			default:
+				c.Probe("local_file_read")
+			}
+			continue
+		}
 		switch {
 		case rec.Reply.Tag == "html":
 			c.Fault("html_page")
@@ -569,17 +610,65 @@ type opOutcome struct {
 	failedSetURL *mlist
 }
 
+// setLocal puts the local list file into the planned state.
+func (r *run) setLocal(rep Rep) error {
+	if err := os.RemoveAll(r.localPath); err != nil {
+		return err
+	}
+	switch rep.K {
+	case "missing":
+		r.localState, r.localBody, r.localTag = "missing", nil, "missing"
+	case "dir":
+		r.localState, r.localBody, r.localTag = "dir", nil, "dir"
+		return os.Mkdir(r.localPath, 0o755)
+	default:
+		rp := r.reply(r.localPath, Rep{K: ls.KindOK, C: rep.C, Alt: rep.Alt})
+		r.localState, r.localBody, r.localTag = "write", rp.Body, rp.Tag
+		return os.WriteFile(r.localPath, rp.Body, 0o644)
+	}
+	return nil
+}
+
+// localRecords makes up the "request" records of the local list for this
+// operation: a forced refresh of its kind certainly reads the file; during
+// any other operation the system may or may not have read it.
+func (r *run) localRecords(op Op, out *opOutcome) []*ls.Record {
+	l := r.find(r.localPath)
+	involved := op.K == "add" && op.U == localIdx
+	if op.K == "seturl" && op.U2 == localIdx && op.En {
+		// set_url downloads when the location changes or the list gets enabled.
+		// (and refuses a location another list already has, before any download)
+		if tgt := r.find(runURLs[op.U]); tgt != nil && tgt.white == op.W {
+			involved = (tgt.url == r.localPath && !tgt.enabled) || (tgt.url != r.localPath && l == nil)
+		}
+	}
+	if (l == nil || !l.enabled) && !involved {
+		return nil
+	}
+	rec := &ls.Record{URL: r.localPath, Local: true, Reply: ls.Reply{Kind: ls.KindOK, Body: r.localBody, Tag: r.localTag}}
+	rec.Unreadable = r.localState != "write"
+	certain := op.K == "refresh" && l != nil && l.enabled && l.white == op.W && out.failedSetURL == nil
+	rec.Uncertain = !certain && !rec.Unreadable
+	if op.K == "restart" || op.K == "config" || op.K == "remove" {
+		return nil // nothing is downloaded in these operations
+	}
+	if !certain && !involved && op.K != "advance" && op.K != "add" {
+		return nil
+	}
+	return []*ls.Record{rec}
+}
+
 func (r *run) apply(op Op) (*opOutcome, error) {
 	n := r.n
 	out := &opOutcome{}
 	var err error
 	switch op.K {
 	case "add":
-		out.code, out.body, err = n.AddURL("", urls[op.U], op.W)
+		out.code, out.body, err = n.AddURL("", runURLs[op.U], op.W)
 	case "seturl":
-		out.code, out.body, err = n.SetURL(urls[op.U], op.W, "", urls[op.U2], op.En)
+		out.code, out.body, err = n.SetURL(runURLs[op.U], op.W, "", runURLs[op.U2], op.En)
 	case "remove":
-		out.code, out.body, err = n.RemoveURL(urls[op.U], op.W)
+		out.code, out.body, err = n.RemoveURL(runURLs[op.U], op.W)
 	case "refresh":
 		out.code, _, out.body, err = n.Refresh(op.W)
 		if err == nil && out.code != 200 {
@@ -630,7 +719,7 @@ func (r *run) membership(op Op, out *opOutcome, recs []*ls.Record) error {
 	}
 	switch op.K {
 	case "add":
-		u := urls[op.U]
+		u := runURLs[op.U]
 		exists := r.find(u) != nil
 		dl := byURL[u]
 		switch out.code {
@@ -656,7 +745,7 @@ func (r *run) membership(op Op, out *opOutcome, recs []*ls.Record) error {
 			return kernel.Violationf("api-status", "add_url -> %d %s", out.code, out.body)
 		}
 	case "seturl":
-		u, u2 := urls[op.U], urls[op.U2]
+		u, u2 := runURLs[op.U], runURLs[op.U2]
 		var tgt *mlist
 		if l := r.find(u); l != nil && l.white == op.W {
 			tgt = l
@@ -690,7 +779,9 @@ func (r *run) membership(op Op, out *opOutcome, recs []*ls.Record) error {
 			dl := byURL[u2]
 			if len(dl) > 0 {
 				out.failedSetURL = tgt
-				if u2 != u {
+				// (a missing local file is refused by the validation, before
+				// anything about the list is touched)
+				if u2 != u && !(dl[0].Local && r.localState == "missing") {
 					tgt.unloaded = "failed-seturl"
 					r.c.Probe("seturl_download_failed")
 				}
@@ -705,7 +796,7 @@ func (r *run) membership(op Op, out *opOutcome, recs []*ls.Record) error {
 		if out.code != 200 {
 			return kernel.Violationf("api-status", "remove_url -> %d %s", out.code, out.body)
 		}
-		u := urls[op.U]
+		u := runURLs[op.U]
 		for i, l := range r.lists {
 			if l.url == u && l.white == op.W {
 				r.lists = append(r.lists[:i:i], r.lists[i+1:]...)
@@ -877,7 +968,7 @@ func (r *run) check(op Op, out *opOutcome, recs []*ls.Record) error {
 		byURL[rec.URL] = append(byURL[rec.URL], rec)
 	}
 	anyStoredChanged := false
-	failedN, okN, ambN := 0, 0, 0
+	failedN, okN, ambN, maybeFailedN := 0, 0, 0, 0
 	kindReq := map[bool]bool{} // kinds (allow / block) of the lists that were requested
 	known := map[string]bool{}
 	for _, l := range r.lists {
@@ -895,7 +986,7 @@ func (r *run) check(op Op, out *opOutcome, recs []*ls.Record) error {
 			kindReq[l.white] = true
 		}
 		acc := []fstate{l.st}
-		sawNew, onlySame := false, true
+		sawNew, sawCertainNew, onlySame := false, false, true
 		l.earlier = nil
 		if l.st.has {
 			l.earlier = append(l.earlier, l.lines)
@@ -905,7 +996,11 @@ func (r *run) check(op Op, out *opOutcome, recs []*ls.Record) error {
 		for _, rec := range myRecs {
 			cl := r.classify(rec)
 			if cl == expOld {
-				failedN++
+				if !rec.Local || op.K == "refresh" {
+					failedN++
+				} else {
+					maybeFailedN++
+				}
 				continue
 			}
 			nf, lines := ls.NormalForm(rec.Reply.Body)
@@ -914,15 +1009,25 @@ func (r *run) check(op Op, out *opOutcome, recs []*ls.Record) error {
 				onlySame = false
 			}
 			l.earlier = append(l.earlier, lines)
+			// After an earlier download in this operation the system knows the
+			// stored file's checksum again.
+			checksumKnown := l.unloaded == "" || sawNew
 			sawNew = true
-			if cl == expEither && out.code == 200 && (op.K == "add" || (op.K == "seturl" && l.unloaded == "url-changed")) {
+			if !rec.Uncertain {
+				sawCertainNew = true
+			}
+			if cl == expEither && out.code == 200 && ((op.K == "add" && l == out.added) || (op.K == "seturl" && l.unloaded == "url-changed")) {
 				// The request that downloaded it was accepted: the text counts
 				// as taken (the old file came from another location).
 				cl = expNew
 			}
 			if cl == expEither {
 				acc = append(acc, ns)
-				ambN++
+				if !rec.Uncertain {
+					ambN++
+				} else if ls.Ambiguous(rec.Reply.Body) {
+					maybeFailedN++
+				}
 				continue
 			}
 			okN++
@@ -939,7 +1044,7 @@ func (r *run) check(op Op, out *opOutcome, recs []*ls.Record) error {
 			// The statement lets content with an unchanged checksum stay.
 			crc := ls.LinesChecksum(lines)
 			for _, a := range acc {
-				if a.has && a != ns && l.unloaded == "" {
+				if a.has && a != ns && checksumKnown {
 					if _, al := ls.NormalForm([]byte(a.nf)); ls.LinesChecksum(al) == crc {
 						next = append(next, a)
 					}
@@ -998,6 +1103,10 @@ func (r *run) check(op Op, out *opOutcome, recs []*ls.Record) error {
 		if obs == l.st && len(myRecs) > 0 && !sawNew {
 			c.Probe("failed_refresh_left_list_unchanged")
 		}
+		if obs == l.st && obs.has && fs.Inode != l.inode {
+			// replaced and replaced back within the operation
+			anyStoredChanged = true
+		}
 		if obs != l.st {
 			anyStoredChanged = true
 			c.Probe("changed_content_stored_as_normal_form")
@@ -1005,7 +1114,7 @@ func (r *run) check(op Op, out *opOutcome, recs []*ls.Record) error {
 				c.Probe("allow_list_updated")
 			}
 			l.unloaded = ""
-		} else if sawNew && onlySame && l.enabled {
+		} else if sawCertainNew && onlySame && l.enabled {
 			l.unloaded = ""
 		}
 		if sawNew && obs == l.st && !onlySame {
@@ -1096,7 +1205,7 @@ func (r *run) check(op Op, out *opOutcome, recs []*ls.Record) error {
 					return kernel.Violationf("rules-in-force-changed", "%s: verdict %s -> %s although no list changed in this operation (model expects %s); requests: %s", name, before, got.Reason, want, fmtRecs(recs))
 				case pass == 0 && anyStoredChanged && r.earlierVerdict(v, got.Reason):
 					cls := "stored-list-not-in-force"
-					if len(kindReq) == 2 && failedN+ambN > 0 {
+					if len(kindReq) == 2 && failedN+ambN+maybeFailedN > 0 {
 						// a timer-driven refresh (block and allow lists at once) in which downloads failed
 						cls = "stored-list-not-in-force-after-failed-downloads"
 					}
@@ -1151,6 +1260,12 @@ func fmtRecs(recs []*ls.Record) string {
 	parts := make([]string, 0, len(recs))
 	for _, rec := range recs {
 		s := fmt.Sprintf("url#%d:%s[%s]", urlIdx(rec.URL), rec.Reply.Kind, rec.Reply.Tag)
+		if rec.Local {
+			s = fmt.Sprintf("url#%d:local-file[%s]", urlIdx(rec.URL), rec.Reply.Tag)
+			if rec.Uncertain {
+				s += ":maybe-read"
+			}
+		}
 		if rec.Reply.Kind == ls.KindStatus {
 			s += fmt.Sprintf("=%d", rec.Reply.Status)
 		}
@@ -1181,9 +1296,17 @@ func Run(t *testing.T, scAny any, c *kernel.Ctx) error {
 			r.verdicts[ls.ProbeName(v)] = "NotFilteredNotFound"
 		}
 		r.srv = &ls.Server{Plan: r.planFn}
-		opt := ls.Options{DataDir: filepath.Join(dir, "data"), IntervalH: uint32(sc.IntervalH), ClientTimeout: time.Duration(sc.TimeoutS) * time.Second}
+		r.localPath = filepath.Join(dir, "local", "list.txt")
+		runURLs = append([]string{}, urls...)
+		runURLs[localIdx] = r.localPath
+		if err = os.MkdirAll(filepath.Dir(r.localPath), 0o755); err != nil {
+			return err
+		}
+		r.localState, r.localTag = "missing", "missing"
+		opt := ls.Options{DataDir: filepath.Join(dir, "data"), IntervalH: uint32(sc.IntervalH), ClientTimeout: time.Duration(sc.TimeoutS) * time.Second,
+			SafeFSPatterns: []string{filepath.Join(dir, "local", "*")}}
 		for i, il := range sc.Init {
-			lc := ls.ListConf{ID: int64(i + 1), URL: urls[il.U%len(urls)], Name: fmt.Sprintf("init %d", i), Enabled: il.En}
+			lc := ls.ListConf{ID: int64(i + 1), URL: runURLs[il.U%len(urls)], Name: fmt.Sprintf("init %d", i), Enabled: il.En}
 			if il.W {
 				opt.Allow = append(opt.Allow, lc)
 			} else {
@@ -1206,6 +1329,12 @@ func Run(t *testing.T, scAny any, c *kernel.Ctx) error {
 			r.opIdx = i
 			r.plan = append([]Rep(nil), op.Srv...)
 			c.Eventf("op %d %s u=%d u2=%d w=%v en=%v s=%d t=%s", i, op.K, op.U, op.U2, op.W, op.En, op.S, time.Since(kernel.Epoch))
+			if op.Local != nil {
+				if err = r.setLocal(*op.Local); err != nil {
+					return err
+				}
+				c.Eventf("  local file: %s", r.localTag)
+			}
 			out, err := r.apply(op)
 			if err == nil {
 				c.SimTime += r.n.Settle()
@@ -1213,7 +1342,7 @@ func Run(t *testing.T, scAny any, c *kernel.Ctx) error {
 			}
 			var recs []*ls.Record
 			if err == nil {
-				recs = r.srv.Take()
+				recs = append(r.srv.Take(), r.localRecords(op, out)...)
 				r.countFaults(recs)
 				c.Eventf("  -> %d; requests %s", out.code, fmtRecs(recs))
 				err = r.check(op, out, recs)
@@ -1263,11 +1392,11 @@ var Prop = &kernel.Property{
 		"operations are serialised (mode A): the next operation starts when the previous refresh has finished",
 		"a stalled download inside set_url is delivered as a dead connection (set_url holds the list mutex while downloading; a timer-driven refresh blocking on that mutex would stop the simulated clock); stalls past the client timeout are simulated for add_url, forced and scheduled refresh",
 	},
-	FaultKinds: []string{"dial_error", "status_not_200", "cut_in_headers", "cut_content_length", "cut_chunked", "slow_headers_timeout", "slow_body_timeout", "html_page", "binary_body", "clean_restart"},
+	FaultKinds: []string{"dial_error", "status_not_200", "cut_in_headers", "cut_content_length", "cut_chunked", "slow_headers_timeout", "slow_body_timeout", "html_page", "binary_body", "local_file_missing", "local_file_is_directory", "clean_restart"},
 	ProbeNames: []string{"refresh_forced", "refresh_scheduled", "refresh_partly_failed", "refresh_all_failed", "failed_refresh_left_list_unchanged", "changed_content_stored_as_normal_form", "unchanged_content_kept_inode",
 		"allow_list_updated", "add_accepted", "add_rejected", "seturl_accepted", "seturl_rejected", "seturl_download_failed", "list_removed", "restart_reparsed_same_count",
 		"cut_before_any_byte", "cut_after_headers", "cut_mid_line", "cut_at_line_boundary", "cut_before_last_byte", "complete_chunked", "complete_close_delimited", "slow_but_in_time",
-		"ambiguous_text_accepted", "ambiguous_text_rejected", "same_checksum_other_text_kept_old", "same_content_from_new_location", "probe_name_in_merged_line"},
+		"ambiguous_text_accepted", "ambiguous_text_rejected", "same_checksum_other_text_kept_old", "same_content_from_new_location", "probe_name_in_merged_line", "local_file_read"},
 }
 
 // bubble is kernel.Bubble (a variable so that a debugging test can run a
